@@ -189,6 +189,17 @@ Theorem C05_render_values_order :
 Proof. exact engine_render_values_order. Qed.
 Print Assumptions C05_render_values_order.
 
+(* the hypothesis is satisfiable by a non-trivial executor: one that prints the string under a path
+   of the scope value (what {{ .Values.k }} does); for it the render of ANY tree is the same for the
+   values and for the values with their top-level map reversed *)
+Example C05_render_values_order_witness :
+  (forall p t u k v v', veq v v' -> probe_exec p t u k v = probe_exec p t u k v') /\
+  forall (c : chart) (top : vmap), NoDup (map fst top) ->
+    engine_render_tree VStr unit (fun t _ _ => Some t) unit (probe_exec ["Values"; "k"]) tt tt c top
+    = engine_render_tree VStr unit (fun t _ _ => Some t) unit (probe_exec ["Values"; "k"]) tt tt c (rev top).
+Proof. exact (conj probe_exec_veq render_values_order_witness). Qed.
+Print Assumptions C05_render_values_order_witness.
+
 (* The order of the dependency lists.  Engine code ranges over Dependencies(), a slice - but where the
    slice is filled from a Go map (the loader before fix 14399c3, F10) its order is arbitrary.  For a
    well-formed tree, [dperm c c'] (the dependency lists re-ordered at every level) does not reach the
